@@ -2,7 +2,7 @@
    Model/Sensors.v (hand model of sensor.py, compared with the real classes on every run: all 65536 contents of 2-byte
    fields, every field of the schedule groups, boundary/random blocks for every table) + the tables GENERATED from /repo. *)
 From Coq Require Import ZArith List Bool String.
-From GW Require Import Prelude PyStr PyFloat Sensors TableChecks TablesGen SensorProofs TableProofs.
+From GW Require Import Prelude PyStr PyFloat Sensors TableChecks TablesGen SensorProofs TableProofs FailCount InvProg InverterGen InvProgInst InvProgRefine.
 Import ListNotations.
 Open Scope Z_scope.
 
@@ -31,9 +31,16 @@ Proof. exact decode_day_of_week_total. Qed.
 Theorem C11_months_total : forall data, exists s, decode_months data = Ok s.
 Proof. exact decode_months_total. Qed.
 
+(* the entry stored by Inverter._map_response with the except clause read from the current source (tools/rf2v.py: loop over the sensors,
+   `result[id] = sensor.read(response)`, `except <classes>: result[id] = None`) is the model's map_entry: ValueError becomes None, every other
+   exception propagates *)
+Theorem C11_map_response_is_the_model : forall data pos s, map_entry_gen data pos s = map_entry data pos s.
+Proof. exact map_response_refined. Qed.
+
 Print Assumptions C11_decoding_total.
 Print Assumptions C11_tables_total.
 Print Assumptions C11_exceptions_are_exactly.
 Print Assumptions C11_every_sensor_reported.
 Print Assumptions C11_day_of_week_total.
 Print Assumptions C11_months_total.
+Print Assumptions C11_map_response_is_the_model.
